@@ -190,7 +190,22 @@ func scenario(p params, bounds []int) *vexp.Scenario {
 				horizon = 5 * p.fd
 			}
 			endAt := lastFault + horizon
-			if mx := p.offsets[len(p.offsets)-1] + horizon; mx > endAt {
+			var maxOff time.Duration
+			seedLate := false
+			for i, o := range p.offsets {
+				if o > maxOff {
+					maxOff = o
+				}
+				if i > 0 && p.offsets[0] > o {
+					seedLate = true
+				}
+			}
+			if seedLate {
+				// nodes that started before their seed are in their join back-off (2, 4, 8, 16, 30 s): the next attempt after the
+				// seed is up may be up to 30 s away; the healing phase is counted from there
+				maxOff += 32 * time.Second
+			}
+			if mx := maxOff + horizon; mx > endAt {
 				endAt = mx
 			}
 			advanceTo(endAt)
@@ -342,6 +357,13 @@ func build(tier string) []*vexp.Scenario {
 	out = append(out, vexp.Split(12, func() *vexp.Scenario {
 		return scenario(params{n: 3, seeds: "one", offsets: []time.Duration{0, 0, 0}, fd: 4 * s}, b1)
 	})...)
+	// the seed comes up several seconds after the nodes that want to join through it: their first attempts (the initial one and
+	// the retries 2 s, 4 s, ... later) fail, a later one must succeed
+	for _, late := range []time.Duration{3 * s, 5 * s, 9 * s, 13 * s} {
+		add(params{n: 2, seeds: "one", offsets: []time.Duration{late, 0}, fd: 4 * s}, b0)
+		add(params{n: 3, seeds: "one", offsets: []time.Duration{late, 0, 300 * ms}, fd: 4 * s}, b0)
+		add(params{n: 3, seeds: "two", offsets: []time.Duration{late, late + s, 0}, fd: 0}, b0)
+	}
 	// a self-seeded island that only learns of the others when they contact it (and the other way round), started late
 	for _, fd := range []time.Duration{4 * s, 0} {
 		for _, late := range []time.Duration{700 * ms, 3 * s, 6 * s} {
